@@ -410,6 +410,9 @@ def c12(tier, seed):
         for p in range(16):
             jobs.append(dict(kind="sel", exhaustive_n=[4], part=p, nparts=16, random_shapes=120, nmin=5, nmax=9, triples_per_shape=60, **_seeds(seed, 1 + p)))
         ex = "all DAGs on 2..4 nodes x every (R, X, T)"
+    # "already-computed nodes": what an inner DAG had set up before the outer DAG was described is already computed for the outer one
+    jobs += [dict(kind="hist11", pid="C12", nested_only=True, n_histories=(60 if tier == "quick" else 600),
+                  only=["setup_node_ran_more_than_once_on_one_instance"], **_seeds(seed + 71, k)) for k in range(1 if tier == "quick" else 4)]
     return dict(
         jobs=jobs, level="exploration", exhaustive=True,
         rule="exhaustive: " + ex + " with R over the non-empty subsets of the argument-less roots, X over subsets (size<=2) of the part "
